@@ -22,6 +22,7 @@ BOUNDS = {
     "quick": {"max_unobserved_rows": 5, "samples": 3, "plates_per_sample": 3, "leaf_cap_per_item": retro.LEAF_CAP,
               "fractions": retro.FRACTIONS,
               "row_pools": "two-column pools (mixed, rotated, combinations only) and a three-column pool for the pairwise / segregating generators (<= 4 rows)",
+              "count_sweep": "plate-balanced hold-out on plates of every size 1..20 x every fraction k/20 (default random answers)",
               "cli_holdout": "C11: prepare_retrospective_simulation --holdout-fraction f on layouts of 2-4 rows / >= 2 plates, 7 fractions, <= 2 deviations from the default answers",
               "sparse_wide_probes": "4 layouts with 11-24 rows / 3-12 plates x 11 operations, default random answers only"},
     "thorough": {"max_unobserved_rows": 6, "samples": 3, "plates_per_sample": 3, "leaf_cap_per_item": retro.LEAF_CAP,
